@@ -84,7 +84,7 @@ func specProgram(p *telemetry.ProgramReport) bool {
 //@   ensures uploaderOK(u)
 //@   ensures $mode == "off" ==> $fsops == old($fsops)
 //@   loop 1: invariant uploaderOK(u) && (len(ready) > 0 ==> $mode == "on") && ($mode == "off" ==> $fsops == old($fsops))
-//@   modifies u.cache.m, entries(u.cache.m), maps(string, int64), $fsops, $reportExists, $lockHeld, $markerAbsent, $contributed, $minsize
+//@   modifies u.cache.m, entries(u.cache.m), maps(string, int64), $fsops, $reportExists, $lockHeld, $markerAbsent, $contributed, $minsize, $nprog
 
 // findWork only reads: nothing is created, changed or removed (it may create
 // the upload directory itself). A report name is put on the ready list only in
